@@ -1,6 +1,6 @@
 // C07: GCD, extended GCD, LCM, modular inverse and Jacobi/Kronecker symbols
 #include "../harness/gen.hpp"
-#include "gmp-mparam.h"
+#include "../harness/thresholds.hpp"
 using namespace eng; using namespace gen; using ref::Int;
 
 struct Z { mpz_t z; Z() { mpz_init(z); } ~Z() { mpz_clear(z); } operator mpz_ptr() { return z; } };
